@@ -135,6 +135,7 @@ class CalculationService(BaseSubscriber):
             # Affect this fit by buffs existing in fleet
             if (
                 msg.fit.ship is not None and
+                msg.fit.ship._is_loaded and
                 projector_fit is not msg.fit and
                 projector_fit.fleet is msg.fit.fleet
             ):
@@ -146,7 +147,13 @@ class CalculationService(BaseSubscriber):
                 for fit in msg.fit.fleet.fits:
                     if fit is msg.fit:
                         continue
-                    if fit.ship is None:
+                    # Buffs reach only ships which are loaded in this solar
+                    # system, ship load/unload handlers take care of the rest
+                    if (
+                        fit.ship is None or
+                        not fit.ship._is_loaded or
+                        fit.solar_system is not self.__solar_system
+                    ):
                         continue
                     fits_effect_applications.setdefault(
                         projector_fit, []).append(
@@ -171,6 +178,7 @@ class CalculationService(BaseSubscriber):
             # Unaffect this fit by buffs existing in fleet
             if (
                 msg.fit.ship is not None and
+                msg.fit.ship._is_loaded and
                 projector_fit is not msg.fit and
                 projector_fit.fleet is msg.fit.fleet
             ):
@@ -182,7 +190,13 @@ class CalculationService(BaseSubscriber):
                 for fit in msg.fit.fleet.fits:
                     if fit is msg.fit:
                         continue
-                    if fit.ship is None:
+                    # Buffs reach only ships which are loaded in this solar
+                    # system, ship load/unload handlers take care of the rest
+                    if (
+                        fit.ship is None or
+                        not fit.ship._is_loaded or
+                        fit.solar_system is not self.__solar_system
+                    ):
                         continue
                     fits_effect_unapplications.setdefault(
                         projector_fit, []).append(
@@ -330,7 +344,7 @@ class CalculationService(BaseSubscriber):
                         (item_fleet is not None and tgt_fit.fleet is item_fleet)
                     ):
                         tgt_ship = tgt_fit.ship
-                        if tgt_ship is not None:
+                        if tgt_ship is not None and tgt_ship._is_loaded:
                             tgt_ships.append(tgt_ship)
                 effect_applications.append((projector, tgt_ships))
         if attr_changes:
@@ -576,7 +590,7 @@ class CalculationService(BaseSubscriber):
                                 tgt_fit.fleet is item_fleet)
                         ):
                             tgt_ship = tgt_fit.ship
-                            if tgt_ship is not None:
+                            if tgt_ship is not None and tgt_ship._is_loaded:
                                 tgt_ships.append(tgt_ship)
                     effect_applications.append((projector, tgt_ships))
         if attr_changes:
